@@ -15,6 +15,7 @@ import (
 	"sync/atomic"
 	"testing"
 	"time"
+	"unicode/utf8"
 
 	"github.com/whawty/auth/zz_verif/ref"
 	"github.com/whawty/auth/zz_verif/vr"
@@ -292,6 +293,7 @@ func c06State(R *vr.Result, rng *rand.Rand, id string, sidx int) {
 	}
 	// concurrent requests: sessions of different identities checked at the same time must not be confused
 	w.concurrent(id, toks)
+	w.concurrentLogins(id)
 	// a subset end-to-end through the real mux of newWebHandler (its own factory)
 	w.endToEnd(id)
 	R.Count("states", 1)
@@ -797,6 +799,91 @@ func (w *c06World) concurrent(id string, toks map[string]*c06Tok) {
 	w.R.Count("concurrent_requests", total)
 	if leaks > 0 || changed > 0 {
 		w.R.Violate("c06:concurrent-sessions-confused", fmt.Sprintf("%d of %d requests carrying an ordinary user's session succeeded on admin-only operations while an admin session was in use concurrently (root's password changed: %v); first: %s", leaks, total, changed > 0, first), id+"/concurrent", nil)
+		w.restore()
+	}
+}
+
+// concurrentLogins: wrong-password logins of ordinary users (and of an unknown user) run while administrators log in
+// with the right password. A session is issued only for a successful password authentication and names that user and
+// that user's admin status: no wrong-password login may ever come back with a session, and every session that is
+// issued must check out as exactly the user who asked for it.
+func (w *c06World) concurrentLogins(id string) {
+	type cred struct {
+		user, pw string
+		right    bool
+		admin    bool
+	}
+	var admins, others []cred
+	for n, u := range w.model {
+		if !utf8.ValidString(n) || !utf8.ValidString(u.Pw) || u.Pw == "" {
+			continue
+		}
+		if u.Admin {
+			admins = append(admins, cred{n, u.Pw, true, true})
+		} else {
+			others = append(others, cred{n, u.Pw + "-wrong", false, false}, cred{n, u.Pw, true, false})
+		}
+	}
+	others = append(others, cred{"ghost", "x", false, false})
+	if len(admins) == 0 || len(others) < 2 {
+		return
+	}
+	sort.Slice(admins, func(i, j int) bool { return admins[i].user < admins[j].user })
+	sort.Slice(others, func(i, j int) bool { return others[i].user+others[i].pw < others[j].user+others[j].pw })
+	w.save()
+	var wg sync.WaitGroup
+	var mu sync.Mutex
+	total, wrongGotSession, confused := 0, 0, 0
+	first := ""
+	rounds := vr.Pick(400, 4000)
+	login := func(c cred) {
+		b, _ := json.Marshal(map[string]string{"username": c.user, "password": c.pw})
+		code, m, _, _ := w.post(w.mux, "/api/authenticate", b)
+		sess, _ := m["session"].(string)
+		mu.Lock()
+		defer mu.Unlock()
+		total++
+		if !c.right {
+			if code == 200 || sess != "" {
+				wrongGotSession++
+				if first == "" {
+					first = fmt.Sprintf("login of %q with a wrong password got status %d and session %q", c.user, code, sess)
+				}
+			}
+			return
+		}
+		if sess != "" {
+			if st, _, who, adm := w.f.Check(sess); st != http.StatusOK || who != c.user || adm != c.admin {
+				confused++
+				if first == "" {
+					first = fmt.Sprintf("the session issued to %q (admin=%v) checks out as %q admin=%v (status %d)", c.user, c.admin, who, adm, st)
+				}
+			}
+		}
+	}
+	for g := 0; g < 4; g++ {
+		wg.Add(1)
+		go func(g int) {
+			defer wg.Done()
+			for i := 0; i < rounds; i++ {
+				login(admins[(g+i)%len(admins)])
+			}
+		}(g)
+	}
+	for g := 0; g < 8; g++ {
+		wg.Add(1)
+		go func(g int) {
+			defer wg.Done()
+			for i := 0; i < rounds; i++ {
+				login(others[(g+i)%len(others)])
+			}
+		}(g)
+	}
+	wg.Wait()
+	w.R.Case(id+"/concurrent-logins", true)
+	w.R.Count("concurrent_logins", total)
+	if wrongGotSession > 0 || confused > 0 {
+		w.R.Violate("c06:concurrent-logins-confused", fmt.Sprintf("of %d logins in flight together, %d with a wrong password were answered with a session and %d sessions name someone else than the user who logged in; first: %s", total, wrongGotSession, confused, first), id+"/concurrent-logins", nil)
 		w.restore()
 	}
 }
